@@ -564,6 +564,8 @@ def _classify_id(call: ast.Call, stmt: ast.stmt, fnode: Optional[ast.AST]) -> Tu
                     continue
                 if isinstance(pp, ast.Subscript):
                     continue
+                if isinstance(pp, ast.Call) and n in pp.args and _helper_param_is_key_only(pp, pp.args.index(n), fnode):
+                    continue  # handed to a helper of the same module that only uses it as a visited key
                 q: Optional[ast.AST] = n
                 logged = False
                 while q is not None and not isinstance(q, ast.stmt):
@@ -585,6 +587,38 @@ def _classify_id(call: ast.Call, stmt: ast.stmt, fnode: Optional[ast.AST]) -> Tu
                 return True, "only formatted into a log message"
             q = parent(q)
     return False, f"identity used in `{norm(stmt)[:60]}`"
+
+
+def _helper_param_is_key_only(call: ast.Call, pos: int, fnode: Optional[ast.AST]) -> bool:
+    """The callee is a function of the same module (unique by name) and its parameter at `pos` is used only in comparisons, set
+    add/discard/remove and subscripts (visited-set bookkeeping)."""
+    name = call.func.attr if isinstance(call.func, ast.Attribute) else call.func.id if isinstance(call.func, ast.Name) else None
+    root = fnode
+    while root is not None and parent(root) is not None:
+        root = parent(root)
+    if name is None or root is None:
+        return False
+    cands = [f for f in ast.walk(root) if isinstance(f, (ast.FunctionDef, ast.AsyncFunctionDef)) and f.name == name]
+    if len(cands) != 1:
+        return False
+    h = cands[0]
+    params = [a.arg for a in h.args.posonlyargs + h.args.args]
+    if params and params[0] in ("self", "cls") and isinstance(call.func, ast.Attribute):
+        params = params[1:]
+    if pos >= len(params):
+        return False
+    pname = params[pos]
+    uses = [x for x in ast.walk(h) if isinstance(x, ast.Name) and x.id == pname and isinstance(x.ctx, ast.Load)]
+    if not uses:
+        return False
+    for x in uses:
+        pp = parent(x)
+        if isinstance(pp, (ast.Compare, ast.Subscript)):
+            continue
+        if isinstance(pp, ast.Call) and isinstance(pp.func, ast.Attribute) and pp.func.attr in ("add", "discard", "remove") and x in pp.args:
+            continue
+        return False
+    return True
 
 
 def _dict_keys_not_ordered(dc: ast.DictComp, stmt: ast.stmt, fnode: Optional[ast.AST]) -> Tuple[bool, str]:
